@@ -166,7 +166,11 @@ static void decomp(Table* t, TableQuery* q, int nsyl, Bag* out, size_t* n) {
   }
 }
 
-static void one(const std::string& dir, const std::string& name) {
+// `+<name>`: the dictionary is compiled again over whatever an earlier compilation left in build/ (nothing removed first):
+// what a deployment after the source was edited does
+static void one(const std::string& dir, const std::string& arg) {
+  const bool keep = !arg.empty() && arg[0] == '+';
+  const std::string name = keep ? arg.substr(1) : arg;
   printf("case %s\n", name.c_str());
   path staging = path(dir) / "build";
   std::filesystem::create_directories(staging);
@@ -174,7 +178,7 @@ static void one(const std::string& dir, const std::string& name) {
   bool ok;
   {
     Dictionary dict(name, {}, {New<Table>(tpath)}, New<Prism>(ppath));
-    dict.Remove();
+    if (!keep) dict.Remove();
     DictCompiler dc(&dict);
     ok = dc.Compile(path());
   }
